@@ -107,17 +107,6 @@ def jsonOfOp : Op → Json
   | .update .lost => Json.mkObj [("k", "update"), ("mode", "lost")]
   | .update .stateless => Json.mkObj [("k", "update"), ("mode", "stateless")]
 
-/-- the witnesses of `c12_shortcut_counterexample` / `c12_idreuse_counterexample` (kept literally in
-step with `Props/C12.lean`; the driver imports core-only model files) -/
-def witnessShortcut : List Op :=
-  [.create .active, .create .active, .create .active, .setStatus 1 .completed, .setStatus 3 .completed,
-   .update .live, .delete 3, .setStatus 2 .completed, .update .live]
-
-def witnessIdReuse : List Op :=
-  [.create .active, .create .active, .create .active, .setStatus 1 .completed, .setStatus 2 .completed,
-   .setStatus 3 .completed, .update .live, .delete 3, .create .active, .setStatus 3 .completed,
-   .update .live]
-
 def handle (j : Json) : Except String Json := do
   let op ← getStr j "op"
   match op with
